@@ -95,6 +95,8 @@ type Got = Result<(usize, usize, Vec<MSct>), String>;
 
 fn call_list(buf: &[u8]) -> Result<Got, Fail> {
     guard("parse_ct_signed_certificate_timestamp_list", || match parse_ct_signed_certificate_timestamp_list(buf) {
+        // (a clone of the decoded list is the list: field by field and in its Debug text)
+        Ok((_, v)) if v.clone().iter().map(conv::sct).collect::<Vec<MSct>>() != v.iter().map(conv::sct).collect::<Vec<MSct>>() || (buf.len() <= 600 && format!("{:?}", v.clone()) != format!("{:?}", v)) => Err(format!("<the clone of the decoded list differs from it: {}>", crate::core::trunc(&format!("{:?} vs {:?}", v.clone(), v)))),
         Ok((rem, v)) => Ok(((rem.as_ptr() as usize).wrapping_sub(buf.as_ptr() as usize), rem.len(), v.iter().map(conv::sct).collect())),
         Err(e) => Err(format!("{:?}", e.map(|x| x.code))),
     })
